@@ -14,6 +14,7 @@ import random
 import numpy as np
 
 from harness import alpha, compare, core, gamma, shims, tlc, util
+from harness import spell
 
 INV = ["CookRefines", "NoSharedWrites", "PoolOK", "Emit"]
 RECDIR = os.path.join(os.path.dirname(os.path.dirname(os.path.abspath(__file__))), "harness", "recipes")
@@ -266,11 +267,11 @@ def run_scenario(chk, sc, cfgseed, recipe, flavour="sched", workers=None, pressu
         if flavour == "real":
             # the genuine pathos pool, cached between calls exactly as in production
             with core.quiet():
-                ch = Chef(src, recipe=rarg, outfile=out, serial=serial, kept_fields=kept, **kw)
+                ch = Chef(spell.of(src, cfgseed)[0], recipe=rarg, outfile=out, serial=serial, kept_fields=kept, **kw)
                 ch.cook()
         else:
             with shims.pool_shim(shims.Scheduler(plan=plan, workers=workers), flavour), core.quiet():
-                ch = Chef(src, recipe=rarg, outfile=out, serial=serial, kept_fields=kept, **kw)
+                ch = Chef(spell.of(src, cfgseed)[0], recipe=rarg, outfile=out, serial=serial, kept_fields=kept, **kw)
                 ch.cook()
     except Exception as e:
         if permuted and isinstance(e, ValueError) and not os.path.exists(out):
